@@ -551,6 +551,8 @@ def _run(eng, contract, fn, res):
     for n in contract.params:
         if n != "*ok" and n not in st.vars:
             raise Unsupported(f"contract parameter {n} no longer exists")
+    for gname, (gtype, _gexpr) in contract.ghost.items():
+        st.vars[gname] = make_value(eng, st, gtype, f"ghost.{gname}")
     eng.setup_spec(st)
     for pre in contract.requires:
         st.assume(eng.eval_spec(st, pre))
